@@ -4,6 +4,7 @@ import Quanto.Spec.C04
 import Quanto.Spec.C02
 import Quanto.Spec.C06
 import Quanto.AwqBits
+import Quanto.AwqSelect
 import Quanto.OpsWire
 import Quanto.Spec.C05
 import Quanto.Linear
@@ -166,6 +167,16 @@ def handle (toks : List String) : String :=
       | "ref" => show_ 16 (awqPackRef (mk 8))
       | "unpack2" => show_ 8 (awqUnpackV2 (mk 16))
       | _ => "bad-op"
+  -- C15: create15 qtype dtype axis gs shape devtype cap  → class of the result of QBitsTensor.create
+  | ["create15", qt, dt, axis, gs, shape, dev, cap] =>
+      (createOutcome ⟨qt, dt, axis.toInt!, gs.toNat!, parseShape shape, dev, cap.toNat!⟩).show
+  -- optimize15 cls qtype dtype axis gs shape devtype cap
+  | ["optimize15", cls, qt, dt, axis, gs, shape, dev, cap] =>
+      (optimizeOutcome (if cls == "AWQBitsTensor" then .awq else .qbits) ⟨qt, dt, axis.toInt!, gs.toNat!, parseShape shape, dev, cap.toNat!⟩).show
+  | ["createconds15"] =>
+      match awqSelectedGen ⟨"qint4", "f16", 0, 128, [4, 128], "cuda", 8⟩ with
+      | some b => s!"understood {b}"
+      | none => "not-understood"
   -- awqbits N K gs codes scalebits zeros  (float16)
   | ["awqbits", n, k, gs, cb, sb, zb] =>
       let F := f16
